@@ -118,6 +118,21 @@ def xf (toks : Toks) : Option String := do
   | some r => pure (fsToStr (r.1.toList ++ r.2.toList))
   | none => pure "value-error"
 
+/-- `Center.convert_to(date, new_center, orientation)` alone -/
+def cen (toks : Toks) : Option String := do
+  let (D, toks) ← takeDate toks
+  let (h, toks) ← takeCounted takePair toks
+  let (ex, toks) ← takeCounted takeExtra toks
+  let (ls, toks) ← takeCounted takeLof toks
+  let ex ← resolveLofs D names (Generated.orientHist ++ h) ex ls
+  let (ch, toks) ← takeCounted takePair toks
+  let (cl, toks) ← takeCounted takeCLink toks
+  let ((ca, cb), toks) ← takePair toks
+  let (t, _) ← takeNat toks
+  match centerConvert D names (Generated.orientHist ++ h) ex ch cl ca cb t with
+  | some r => pure (fsToStr (r.1.toList ++ r.2.toList))
+  | none => pure "value-error"
+
 def takeCall (h : List (Nat × Nat)) (ex : List Extra) (toks : Toks) : Option (Call × Toks) := do
   let (D, toks) ← takeDate toks
   let ((a, b), toks) ← takePair toks
@@ -149,6 +164,8 @@ def nutc (toks : Toks) : Option String := do
 * `c02nutc <nrows> rows… <ttt> <dpsi mas> <deps mas>` → 9 floats: `iau1980.nutation(date)` with the EOP corrections
 * `c02ser80 <n> <ttt>… <nrows> <a1..a5 A B C D>…`                → n × (ε̄, Δψ, Δε) in degrees
 * `c02ser10 <n> <ttt>… <nblocks> (<tab> <j> <nrows> <16 floats>…)…` → n × (X, Y, s+XY/2) in arcsec
+* `c02cen  <18 date floats> <nH> … <nE> … <nL> … <nCH> (a b)… <nCL> (child parent ori 6 floats)… <ca> <cb> <target orientation>` → 6 floats
+* `c02lofrate <tnw 0|1> <p> <v> <a>` → 3 + 9 floats: the angular velocity `lofRate` of the local frame (own axes) and `d/dt to_local = −[ω]× to_local`
 * `c02lof <tnw 0|1> <p> <v>` → 9 floats;  `c02topo <lat> <lon>` → 9;  `c02geod <lat> <lon> <alt>` → 6
 * `c02conv <18 date floats> <nH> (a b)… <nE> (child parent 9 floats)… <nL> (child parent tnw gori 6 floats own 0|1 [18 date floats])… <a> <b>` → 18 floats (r block, b block)
 * `c02xf   <18 date floats> <nH> … <nE> … <nL> … <nCH> (a b)… <nCL> (child parent ori 6 floats)… <oa> <ca> <ob> <cb> <p> <v>` → 6 floats
@@ -160,6 +177,13 @@ def handle : List String → Option String
     match takeFloats 6 rest with
     | some ([a, b, c, d, e, f], _) => fsToStr (lofMat (tnw == "1") ⟨a, b, c⟩ ⟨d, e, f⟩).toList
     | _ => "bad-op"
+  | "c02lofrate" :: tnw :: rest => some <|
+    match takeFloats 9 rest with
+    | some ([a, b, c, d, e, f, g, h, i], _) =>
+      let w := lofRate (tnw == "1") ⟨a, b, c⟩ ⟨d, e, f⟩ ⟨g, h, i⟩
+      let P := (lofMat (tnw == "1") ⟨a, b, c⟩ ⟨d, e, f⟩).tr
+      fsToStr (w.toList ++ ((M3.skew w).mul P).neg.toList)
+    | _ => "bad-op"
   | "c02topo" :: rest => some <|
     match takeFloats 2 rest with
     | some ([lat, lon], _) => fsToStr (topoMat lat lon).toList
@@ -170,6 +194,7 @@ def handle : List String → Option String
     | _ => "bad-op"
   | "c02conv" :: rest => some ((conv rest).getD "bad-op")
   | "c02xf" :: rest => some ((xf rest).getD "bad-op")
+  | "c02cen" :: rest => some ((cen rest).getD "bad-op")
   | "c02seq" :: rest => some ((seq rest).getD "bad-op")
   | "c02nutc" :: rest => some ((nutc rest).getD "bad-op")
   | _ => none
